@@ -205,6 +205,37 @@ def fTRes : TRes BF → String
   | .grad2 x => s!"G:{fBF x}"
   | .refused => "REF"
 
+/-  fourth request kind: the composite likelihood of two datasets (CacheTop.Comp)
+      comp <…the tokens of `top` up to <opa>…> <fj s:x1,x2,…:f0,f1;…> <oth d:s:x1,x2,…:r1,r2,…;…> <cnt d:N:Nsel;…> <casc0> <d0> <s0> <ops>
+    ops     T<d> | L | C<s> | G<ns> (dataset 0's calculate_ns_grad2) | M<ns>|<xs>|<keys> (composite evaluate) | H<ns> (composite grad2)
+    answer  U | G:<x> | REF | V:<llh>:<dllh/dns> | XERR | H:<x> | HREF                                                   -/
+def fjTab (s : String) : List ((Nat × List BF) × List BF) := akTab s
+
+def othTab (s : String) : List ((Nat × Nat × List BF) × List BF) :=
+  (entries s).filterMap fun
+    | [d, sr, xs, rs] => some ((pN d, pN sr, pList pBF xs), pList pBF rs)
+    | _ => none
+
+def cntTab (s : String) : List (Nat × (Nat × Nat)) :=
+  (entries s).filterMap fun
+    | [d, n, m] => some (pN d, (pN n, pN m))
+    | _ => none
+
+def pCOp (s : String) : Option (COp Nat Nat BF) :=
+  if s.startsWith "M" then
+    match ((s.drop 1).toString).splitOn "|" with
+    | [ns, xs, ks] => some (.cevaluate ⟨pBF ns, pList pBF xs, pList pBF ks⟩)
+    | _ => none
+  else if s.startsWith "H" then some (.cgrad2 (pBF (s.drop 1).toString))
+  else (pTOp s).map .low
+
+def fCRes : CRes BF → String
+  | .low r => fTRes r
+  | .vals llh g => s!"V:{fBF llh}:{fBF g}"
+  | .evalError => "XERR"
+  | .grad2 x => s!"H:{fBF x}"
+  | .refused => "HREF"
+
 def answer (line : String) : String :=
   match tokens line with
   | ["hist", v, c, man, bkg, up, lo, dx, grid, sel, d0, s0, ops] =>
@@ -229,6 +260,26 @@ def answer (line : String) : String :=
       let t0 : TSt Nat Nat BF := tfresh (pN d0) (pN s0)
       let t0 := if pB casc0 then t0 else { t0 with evd := none }
       String.intercalate ";" ((trun T v (hitOf v cfg) cfg t0 ops).2.map fTRes)
+    | none => "bad-ops"
+  | ["comp", v, c, man, bkg, up, lo, dx, grid, sel, nev, ak, opa, fj, oth, cnt, casc0, d0, s0, ops] =>
+    let v := pVariant v
+    let cfg := pCfg c
+    let nt := nevTab nev
+    let at_ := akTab ak
+    let ft := fjTab fj
+    let ot := othTab oth
+    let ct := cntTab cnt
+    let C : Comp Nat Nat BF :=
+      { T := { W := mkWorld man bkg up lo dx grid sel, nEvents := fun d => (nt.lookup d).getD 0,
+               ak := fun s q => (at_.lookup (s, q.x)).getD [], opa := pBF opa },
+        fj := fun s q => (ft.lookup (s, q.x)).getD [],
+        others := fun d s q => match ot.lookup (d, s, q.x) with | some r => [r] | none => [],
+        counts := fun d => match ct.lookup d with | some nm => [nm] | none => [] }
+    match (if ops == "-" then some [] else (ops.splitOn ";").mapM pCOp) with
+    | some ops =>
+      let c0 : CSt Nat Nat BF := cfresh (pN d0) (pN s0)
+      let c0 := if pB casc0 then c0 else { c0 with t := { c0.t with evd := none } }
+      String.intercalate ";" ((crun C v (hitOf v cfg) cfg c0 ops).2.map fCRes)
     | none => "bad-ops"
   | ["field", reset, tab, d0, s0, ops] =>
     let t := fTab tab
